@@ -366,9 +366,15 @@ func (s *stampSink) Write(p []byte) (int, error) {
 			Hostname string `json:"hostname"`
 		} `json:"principal"`
 	}
-	if json.Unmarshal(p, &e) == nil {
-		fmt.Sscanf(e.Principal.Hostname, "conc-t%d", &thread)
-	}
+	func() {
+		// the bytes may be malformed - or still changing, if the writer shares its buffer - and
+		// neither may take the harness down: the record's shape is judged from the file afterwards
+		defer func() { recover() }()
+		cp := append([]byte(nil), p...)
+		if json.Unmarshal(cp, &e) == nil {
+			fmt.Sscanf(e.Principal.Hostname, "conc-t%d", &thread)
+		}
+	}()
 	s.mu.Lock()
 	s.writes = append(s.writes, stampWrite{thread, ws, we})
 	s.mu.Unlock()
